@@ -559,7 +559,10 @@ if __name__ == "__main__":
              "patterns x resolutions x offsets. distinct = distinct canonical input dump; non-trivial = the call "
              "succeeded and changed something (a foreign slice, more cells out than in, a non-empty result, more than "
              "one output bucket)",
-        assumptions=["NaN-free values; scalars and 1-d arrays (rank >= 2 arrays and empty arrays are outside the model)",
+        assumptions=["theorem hypotheses: value dicts have distinct keys (Python dicts); policyYear_conserves needs the "
+                     "share-table contract (Spec.C18.policyCovered: every accident period's normalised row sums to 1, "
+                     "evaluated by the driver on every case) and one shape per field within a slice (UniformShapes)",
+                     "NaN-free values; scalars and 1-d arrays (rank >= 2 arrays and empty arrays are outside the model)",
                      "list (or absent) period weights (dict weights make the code raise, DESIGN §6)",
                      "disaggregate_experience on incremental triangles is not modelled (to_cumulative/to_incremental wrapper: C04)",
                      "float rounding: comparisons are exact where the generated dyadic inputs make IEEE arithmetic exact, "
